@@ -318,9 +318,12 @@ static void emitCall(FuncCtx& fc, std::ostringstream& out, const CallBase* cb) {
         StringRef n = callee->getName();
         if (skipIntrinsic(callee)) return;
         auto bits = [&](const Value* v) { return v->getType()->getIntegerBitWidth(); };
-        if (n.startswith("llvm.memcpy")) { out << "  memcpy((void*)" << args[0] << ", (const void*)" << args[1] << ", " << args[2] << ");\n"; return; }
-        if (n.startswith("llvm.memmove")) { out << "  memmove((void*)" << args[0] << ", (const void*)" << args[1] << ", " << args[2] << ");\n"; return; }
-        if (n.startswith("llvm.memset")) { out << "  memset((void*)" << args[0] << ", " << args[1] << ", " << args[2] << ");\n"; return; }
+        // constant length: C library call (CBMC's model is exact there); symbolic length: explicit byte loop
+        // (CBMC 6.11 mis-models memset/memcpy with a symbolic length at a symbolic offset inside a struct member array)
+        bool constLen = n.startswith("llvm.mem") && isa<ConstantInt>(cb->getArgOperand(2));
+        if (n.startswith("llvm.memcpy")) { out << "  " << (constLen ? "memcpy" : "__ir_memcpy_n") << "((void*)" << args[0] << ", (const void*)" << args[1] << ", " << args[2] << ");\n"; return; }
+        if (n.startswith("llvm.memmove")) { out << "  " << (constLen ? "memmove" : "__ir_memmove_n") << "((void*)" << args[0] << ", (const void*)" << args[1] << ", " << args[2] << ");\n"; return; }
+        if (n.startswith("llvm.memset")) { out << "  " << (constLen ? "memset" : "__ir_memset_n") << "((void*)" << args[0] << ", " << args[1] << ", " << args[2] << ");\n"; return; }
         if (n.startswith("llvm.cttz")) { out << "  " << lhs << "__ir_cttz" << bits(cb) << "(" << args[0] << ");\n"; return; }
         if (n.startswith("llvm.ctlz")) { out << "  " << lhs << "__ir_ctlz" << bits(cb) << "(" << args[0] << ");\n"; return; }
         if (n.startswith("llvm.ctpop")) { out << "  " << lhs << "__ir_ctpop" << bits(cb) << "(" << args[0] << ");\n"; return; }
@@ -721,7 +724,7 @@ int main(int argc, char** argv) {
         // apply the substitutions at IR level (used for the native replay build, so that it runs the same program)
         for (auto& kv : aliases) {
             Function* r = M->getFunction(kv.first); Function* m = M->getFunction(kv.second);
-            if (!r) die("alias source not found: " + kv.first);
+            if (!r) continue;   // kernel not used by this TU
             if (!m) die("alias target not found: " + kv.second);
             if (r->getType() != m->getType()) die("alias type mismatch: " + kv.first + " vs " + kv.second);
             r->replaceAllUsesWith(m);
